@@ -13,9 +13,9 @@ from io import BytesIO, IOBase
 import falcon
 import pyarrow as pa
 
-from vgi_rpc.rpc import _EMPTY_SCHEMA, _write_error_batch
+from vgi_rpc.rpc import _EMPTY_SCHEMA, RpcError, VersionError, _write_error_batch
 from vgi_rpc.rpc._common import _current_request_batch
-from vgi_rpc.utils import new_ipc_stream
+from vgi_rpc.utils import IPCError, new_ipc_stream
 
 from .._common import _ARROW_CONTENT_TYPE, RPC_ERROR_HEADER, _RpcHttpError
 
@@ -25,6 +25,29 @@ from .._common import _ARROW_CONTENT_TYPE, RPC_ERROR_HEADER, _RpcHttpError
 # request to translate a 500 into 200 + ``X-VGI-RPC-Error: true`` so the
 # response shape matches the documented contract for hard caps.
 _current_response_status: ContextVar[HTTPStatus] = ContextVar("vgi_rpc_response_status", default=HTTPStatus.OK)
+
+# Everything Arrow (and ``ValidatedReader``) raises for request bytes that are
+# not a well-formed IPC stream.  ``ArrowInvalid`` is only one of them: a
+# corrupted flatbuffer surfaces as ``OSError`` ("Invalid flatbuffers message"
+# is an IOError status), an unsupported type as ``ArrowNotImplementedError``, a
+# dangling dictionary id as ``ArrowKeyError``, a batch that fails
+# ``validate()`` as ``IPCError``, a non-UTF-8 name as ``UnicodeDecodeError``
+# and a stream that ends before its first batch as ``StopIteration``.  Each of
+# them means the caller sent bad IPC, so each is a 400 -- not an unhandled 500,
+# and not the 200 + ``X-VGI-RPC-Error`` reserved for a call that was dispatched
+# and failed.
+_MALFORMED_IPC_ERRORS: tuple[type[BaseException], ...] = (
+    pa.ArrowException,
+    OSError,
+    IPCError,
+    UnicodeDecodeError,
+    StopIteration,
+)
+
+# What the unary and ``/init`` routes answer 400 for while a request is still
+# being read and validated: malformed IPC, plus the framework's own refusals
+# (missing or mismatched metadata, version and parameter rejections).
+_BAD_REQUEST_ERRORS: tuple[type[BaseException], ...] = (*_MALFORMED_IPC_ERRORS, TypeError, RpcError, VersionError)
 
 
 def _vgi_version() -> str:
